@@ -182,19 +182,30 @@ fn chain(ctx: &mut Ctx, prop: &'static str) -> R {
     }
     let needs = method_needs_body(&method);
     let mut framing = Framing::None;
-    if needs && (prop == "C13" || ctx.chance(1, 2)) {
+    // a body-less method sent with a body despite the method carries a Content-Length too
+    let despite0 = !needs && ctx.chance(1, if prop == "C13" { 3 } else { 8 });
+    if (needs || despite0) && (prop == "C13" || despite0 || ctx.chance(1, 2)) {
         crate::reqgen::insert_at(ctx, &mut orig, ("content-length".into(), cl_secret.to_string().into_bytes()));
         framing = Framing::Sized(cl_secret, false);
     }
     let policy = if policy_samehost { RedirectAuthHeaders::SameHost } else { RedirectAuthHeaders::Never };
     let n_hops = if prop == "C15" { ctx.range(1, 2) } else { ctx.range(1, 4) };
-    let cfg0 = ReqCfg { method: method.clone(), version, uri: uri0.clone(), orig: orig.clone(), added: vec![], despite: false, framing: framing.clone(), expect: false };
+    let cfg0 = ReqCfg { method: method.clone(), version, uri: uri0.clone(), orig: orig.clone(), added: vec![], despite: despite0, framing: framing.clone(), expect: false };
     let mut flow: Flow<(), fs::Prepare> = match lib("Flow::new", || Flow::new(cfg0.build())) {
         Ok(f) => f,
         Err(e) => fail!("FOREIGN", "", "Flow::new: {}", e),
     };
+    // the conversion may come before or after the caller's header additions
+    let mut despite_pending = despite0;
+    if despite_pending && ctx.flip() {
+        lib("Flow<Prepare>::send_body_despite_method", || flow.send_body_despite_method());
+        despite_pending = false;
+    }
+    if despite0 {
+        ctx.count("p:despite_method_with_content_length");
+    }
     let seed = ctx.draw(1 << 32);
-    let mut cur = Hop { method: method.clone(), uri: uri0.clone(), added: vec![], suppressed: vec![], body: if needs { body_bytes(seed, 0, match framing { Framing::Sized(n, _) => n as usize, _ => ctx.range(0, 40) }) } else { vec![] } };
+    let mut cur = Hop { method: method.clone(), uri: uri0.clone(), added: vec![], suppressed: vec![], body: if needs || despite0 { body_bytes(seed, 0, match framing { Framing::Sized(n, _) => n as usize, _ => ctx.range(0, 40) }) } else { vec![] } };
     let mut trail: Vec<String> = vec![format!("{} {}", method, uri0.render())];
     let mut depth = 0u32;
 
@@ -238,7 +249,7 @@ fn chain(ctx: &mut Ctx, prop: &'static str) -> R {
         // keep the resulting request inside what C17 accepts
         let eff_orig: Vec<Hdr> = grouped(&orig).into_iter().filter(|(n, _)| !cur.suppressed.contains(&n.as_str())).collect();
         loop {
-            let probe = ReqCfg { method: cur.method.clone(), version, uri: cur.uri.clone(), orig: eff_orig.clone(), added: added.clone(), despite: false, framing: Framing::None, expect: false };
+            let probe = ReqCfg { method: cur.method.clone(), version, uri: cur.uri.clone(), orig: eff_orig.clone(), added: added.clone(), despite: despite0 && depth == 0, framing: Framing::None, expect: false };
             if classify(&probe, 0).0 == Validity::Valid {
                 break;
             }
@@ -256,6 +267,11 @@ fn chain(ctx: &mut Ctx, prop: &'static str) -> R {
             }
         }
         cur.added = added;
+        if despite_pending {
+            lib("Flow<Prepare>::send_body_despite_method", || flow.send_body_despite_method());
+            despite_pending = false;
+            ctx.count("p:despite_after_headers");
+        }
         // ---- C14: the flow's own idea of where it goes
         let flow_uri = lib("Flow<Prepare>::uri", || uri_of(flow.uri()));
         let flow_method = lib("Flow<Prepare>::method", || flow.method().as_str().to_string());
@@ -301,6 +317,10 @@ fn chain(ctx: &mut Ctx, prop: &'static str) -> R {
         if !last_hop {
             if rich && ctx.chance(1, 12) {
                 loc_class = *ctx.pick(&["missing", "must-error", "garbage"]);
+            }
+            if prop == "C15" && ctx.chance(1, 10) {
+                // the redirect state does not depend on a Location header being there
+                loc_class = "missing";
             }
             match loc_class {
                 "good" => {
@@ -359,15 +379,23 @@ fn chain(ctx: &mut Ctx, prop: &'static str) -> R {
             Ok(Some(p)) => p,
             other => {
                 if let Terminal::Error(s, e) = &obs.terminal {
+                    if prop == "C13" && depth > 0 && framing != Framing::None && (e.contains("forbids body") || e.contains("content-length")) {
+                        // the inherited Content-Length is still effective in the redirected request:
+                        // it makes the body-less request invalid before a byte reaches the wire
+                        fail!("C13.content_length_leaked", "refused", "hop {} to {}: the redirected {} request was refused in {} ({}): the original request's Content-Length is still effective (chain: {})", depth, cur.uri.render(), cur.method, s, e, trail.join(" => "));
+                    }
                     if prop == "C16" || prop == "C02" {
                         fail!(format!("{}.request_refused", prop), "", "hop {}: a request C17 accepts was refused in {}: {} (added {:?})", depth, s, e, cur.added.iter().map(|(n, _)| n.as_str()).collect::<Vec<_>>());
                     }
                     fail!("FOREIGN", "", "hop {} failed in {}: {}", depth, s, e);
                 }
+                if prop == "C02" || prop == "C16" {
+                    fail!(format!("{}.head_incomplete", prop), if depth > 0 { "redirected" } else { "depth0" }, "hop {}: the request head never arrived completely at the origin (ended {} after {} calls, {} overflow retries with buffers up to 64 KiB): {:?} / wire {:?}", depth, obs.terminal.name(), obs.calls, obs.overflow_retries, other.map(|o| o.map(|p| p.len)), show_bytes(obs.head()));
+                }
                 fail!("FOREIGN", "", "hop {}: no complete head at the origin: {:?}", depth, other.map(|o| o.map(|p| p.len)));
             }
         };
-        let exp_cfg = ReqCfg { method: cur.method.clone(), version, uri: cur.uri.clone(), orig: orig.clone(), added: cur.added.clone(), despite: false, framing: if depth == 0 { framing.clone() } else { Framing::None }, expect: false };
+        let exp_cfg = ReqCfg { method: cur.method.clone(), version, uri: cur.uri.clone(), orig: orig.clone(), added: cur.added.clone(), despite: despite0 && depth == 0, framing: if depth == 0 { framing.clone() } else { Framing::None }, expect: false };
         let exp = expected_head(&exp_cfg, &cur.suppressed);
         let head_cmp = compare_head(&parsed, &exp);
         match prop {
